@@ -144,6 +144,8 @@ func runC17(c *Ctx) {
 		}
 	}
 	gen("", 0)
+	// sequences that look like JSON escapes, HTML characters, and a genuine U+FFFD
+	txts = append(txts, "\\u003c", "a\\u0026b\\u003e", "<&>", "\\u003c<", "\ufffd", "caf\ufffd\xff", "\\\\u003c", "\u2028\u2029", "\\/", "\\\"")
 	if !c.Level("product") {
 		return
 	}
